@@ -1,9 +1,23 @@
 import Driver.Util
+import Lattigo.Model.Copy
 
+/-
+  C10 handler.  Tie line:
+    table <Type.Ctor>   the model's classification of every field of the copy against the original,
+                        printed with the classes the reflection walk can observe
+                        (config | config-changed | shared | owned | fresh | mixed | nil | dropped | retyped)
+  Everything else is a probe (answered `holds` by the dispatcher).
+-/
 namespace Driver.C10
-open Driver
+open Driver Lattigo.Copy
 
-/-- stub: replaced by the property's real handler -/
-def handle (_toks : List String) : String := badOp
+def handle (toks : List String) : String :=
+  match toks with
+  | ["table", name] =>
+    match lookup name with
+    | some r => showRow r
+    | none => badOp
+  | ["child", "done"] => "ok"
+  | _ => badOp
 
 end Driver.C10
